@@ -12,6 +12,9 @@ impl Repr {
             let num = IBig::from_str_radix(&src[..slash], radix)?;
             let den = IBig::from_str_radix(&src[slash + 1..], radix)?;
             let (sign, den) = den.into_parts();
+            if den.is_zero() {
+                return Err(ParseError::InvalidDigit);
+            }
             Ok(Repr {
                 numerator: num * sign,
                 denominator: den,
@@ -34,6 +37,9 @@ impl Repr {
 
             if num_radix != den_radix {
                 return Err(ParseError::InconsistentRadix);
+            }
+            if den.is_zero() {
+                return Err(ParseError::InvalidDigit);
             }
             Ok((
                 Repr {
